@@ -122,6 +122,41 @@ pub fn run(rep: &mut Report, thorough: bool) {
             let data: Vec<u8> = (0..n).map(|x| (x * 7) as u8).collect();
             flow(i % 2 == 1, 1, 1).icmp_echo(0x1234, 1, &data)
         });
+        // SYNs carrying TCP options (MSS incl. 0, window scale, SACK-permitted, timestamps, unknown
+        // kinds, malformed lengths): the SYN-ACK stays well-formed (window != 0, data offset 5)
+        {
+            let mss: [u16; 6] = [0, 1, 536, 1460, 6554, 65535];
+            let mut optsets: Vec<Vec<u8>> = Vec::new();
+            for m in mss {
+                optsets.push(vec![2, 4, (m >> 8) as u8, m as u8]);
+                optsets.push(vec![2, 4, (m >> 8) as u8, m as u8, 1, 3, 3, 7]);
+                optsets.push(vec![1, 1, 2, 4, (m >> 8) as u8, m as u8, 4, 2]);
+            }
+            optsets.push(vec![3, 3, 0, 1]);
+            optsets.push(vec![3, 3, 14, 0]);
+            optsets.push(vec![3, 3, 255, 0]);
+            optsets.push(vec![4, 2, 8, 10, 0, 0, 0, 1, 0, 0, 0, 0]);
+            optsets.push(vec![2, 0, 0, 0]);
+            optsets.push(vec![2, 3, 5, 0]);
+            optsets.push(vec![2, 40, 5, 0]);
+            optsets.push(vec![254, 4, 0, 0]);
+            optsets.push(vec![0, 0, 0, 0]);
+            optsets.push(vec![34, 2, 1, 1]);
+            let n = optsets.len() as u64;
+            sweep_frames(rep, &cfg, &format!("syn-options-{}", tag), "SYN with TCP option sets (MSS 0 / 1 / 536 / 1460 / 6554 / 65535 alone and combined, window scale, SACK, timestamps, malformed lengths, unknown kinds) x flags {SYN, SYN|ECE} x {v4,v6}", n * 2 * 2, |i| {
+                let d = unrank(i, &[n, 2, 2]);
+                let f = flow(d[2] == 1, 40000, 80);
+                let o = &optsets[d[0] as usize];
+                let mut seg = TcpSeg::new(f.cport, f.sport, 7, 0, if d[1] == 0 { F_SYN } else { F_SYN | F_ECE }, b"");
+                let mut padded = o.clone();
+                while padded.len() % 4 != 0 {
+                    padded.push(0);
+                }
+                seg.doff = 5 + (padded.len() / 4) as u8;
+                seg.options = padded;
+                f.tcp_seg(&seg)
+            });
+        }
         // IPv4 header checksum of the reply through every value: the peer address (the reply's
         // destination) swept over all 65536 values of its low and of its high half, per reply kind
         sweep_frames(rep, &cfg, &format!("ip4-header-checksum-{}", tag), "client IPv4 address: low half over all 65536 values x high half {0a00, c0a8, fffe, ffff} (the header word sum runs through every 16-bit value with 1, 2 and 3 carries) x {echo, SYN, UDP STUN}", 65536 * 4 * 3, |i| {
